@@ -10,14 +10,14 @@ CONSTANTS MaxLen, Dialect, Emit
 
 Cfg == CASE Dialect = "strict" -> StrictCfg [] Dialect = "odl" -> OdlCfg [] Dialect = "tolerant" -> OmniCfg
 
-Str(x) == N("str", x, <<>>)
+Str(x) == N("str", S(x), <<>>)
 Tok(name, line) ==
-  CASE name = "Wa" -> [k |-> "W", s |-> "a", line |-> line, v |-> Str("a")]
-    [] name = "Wb" -> [k |-> "W", s |-> "b", line |-> line, v |-> Str("b")]
-    [] name = "Vn" -> [k |-> "V", s |-> "1", line |-> line, v |-> N("int", "1", <<>>)]
-    [] name = "Vs" -> [k |-> "V", s |-> "'s'", line |-> line, v |-> Str("s")]
-    [] name = "U"  -> [k |-> "U", s |-> "<m>", line |-> line, v |-> Str("m")]
-    [] OTHER       -> [k |-> name, s |-> name, line |-> line, v |-> NoVal]
+  CASE name = "Wa" -> [k |-> "W", s |-> S("a"), line |-> line, v |-> Str("a")]
+    [] name = "Wb" -> [k |-> "W", s |-> S("b"), line |-> line, v |-> Str("b")]
+    [] name = "Vn" -> [k |-> "V", s |-> S("1"), line |-> line, v |-> N("int", S("10:1"), <<>>)]
+    [] name = "Vs" -> [k |-> "V", s |-> S("'s'"), line |-> line, v |-> Str("s")]
+    [] name = "U"  -> [k |-> "U", s |-> S("<m>"), line |-> line, v |-> N("units", S("m"), <<>>)]
+    [] OTHER       -> [k |-> name, s |-> S(name), line |-> line, v |-> NoVal]
 Names == {"Wa", "Wb", "Vn", "Vs", "U", "=", ",", ";", "(", ")", "{", "}", "BG", "BO", "EG", "EO", "END", "J", "C"}
 
 VARIABLES toks, st
